@@ -286,7 +286,7 @@ def process_integrals(ck, rng, table):
             for name in ("marginal_pdf", "marginal_cdf"):
                 a = np.asarray(getattr(model, name)(np.array(xi), dim), dtype=float)
                 b = np.asarray(getattr(model, name)(np.array(xi, dtype=float), dim), dtype=float)
-                if not np.allclose(a, b, rtol=1e-9, atol=0):
+                if not np.allclose(a, b, rtol=1e-9, atol=0, equal_nan=True):
                     bad.append((name + "_integer_input", f"{name}({xi}) = {a.tolist()} but {b.tolist()} for the same values as floats"))
     for pred, detail in bad:
         ck.fail({"entry": "GlobalHierarchicalModel", "predicate": pred}, case, detail)
